@@ -26,12 +26,14 @@ package leveldb
 //@ interface comparer.Comparer.Separator
 //@   requires len(dst) == 0
 //@   ensures isnil(result) || (ucmp(a, result) <= 0 && ucmp(result, b) < 0)
-//@   modifies nothing
+//@   ensures isnil(result) || samebase(result, dst) || freshbase(result)
+//@   modifies dst[:cap(dst)]
 
 //@ interface comparer.Comparer.Successor
 //@   requires len(dst) == 0
 //@   ensures isnil(result) || ucmp(b, result) <= 0
-//@   modifies nothing
+//@   ensures isnil(result) || samebase(result, dst) || freshbase(result)
+//@   modifies dst[:cap(dst)]
 
 // Internal keys: user key ++ 8 bytes little endian (seq<<8 | type).
 
@@ -77,3 +79,82 @@ package leveldb
 //@   safety on
 //@   requires len(a) >= 8 && len(b) >= 8
 //@   ensures [icmp] result == icmp(a, b)
+
+// ---------------------------------------------------------------------------
+// comparer.go
+
+//@ func (*iComparer).Separator
+//@   props C15 C13
+//@   safety on
+//@   requires len(a) >= 8 && len(b) >= 8 && len(dst) == 0
+//@   requires base(dst) != base(a) && base(dst) != base(b)
+//@   ensures [sep-lower] isnil(result) || icmp(a, result) < 0
+//@   ensures [sep-upper] isnil(result) || icmp(result, b) < 0
+//@   ensures [sep-shape] isnil(result) || (len(result) >= 8 && inum(result) == keyMaxNum)
+
+//@ func (*iComparer).Successor
+//@   props C15 C13
+//@   safety on
+//@   requires len(b) >= 8 && len(dst) == 0
+//@   requires base(dst) != base(b)
+//@   ensures [succ-lower] isnil(result) || icmp(b, result) < 0
+//@   ensures [succ-shape] isnil(result) || (len(result) >= 8 && inum(result) == keyMaxNum)
+
+// ---------------------------------------------------------------------------
+// Order laws of the internal-key order (lemmas over the spec function icmp,
+// from the axioms of the user order only).
+
+//@ lemma icmp_irreflexive(a []byte)
+//@   props C15
+//@   mode bv
+//@   use axioms(ucmp)
+//@   requires len(a) >= 8
+//@   ensures icmp(a, a) == 0
+
+//@ lemma icmp_antisymmetric(a []byte, b []byte)
+//@   props C15
+//@   mode bv
+//@   use axioms(ucmp)
+//@   requires len(a) >= 8 && len(b) >= 8
+//@   ensures icmp(a, b) < 0 <==> icmp(b, a) > 0
+//@   ensures icmp(a, b) == 0 <==> icmp(b, a) == 0
+
+//@ lemma icmp_transitive(a []byte, b []byte, c []byte)
+//@   props C15
+//@   mode bv
+//@   use axioms(ucmp)
+//@   requires len(a) >= 8 && len(b) >= 8 && len(c) >= 8
+//@   ensures icmp(a, b) < 0 && icmp(b, c) < 0 ==> icmp(a, c) < 0
+//@   ensures icmp(a, b) <= 0 && icmp(b, c) <= 0 ==> icmp(a, c) <= 0
+
+//@ lemma icmp_total(a []byte, b []byte)
+//@   props C15
+//@   mode bv
+//@   use axioms(ucmp)
+//@   requires len(a) >= 8 && len(b) >= 8
+//@   ensures icmp(a, b) < 0 || icmp(a, b) == 0 || icmp(b, a) < 0
+//@   ensures icmp(a, b) == 0 ==> (bytes(a[:len(a)-8]) == bytes(b[:len(b)-8]) && inum(a) == inum(b))
+
+// Probe placement: the key built for "user key k as of sequence s" (type keyTypeSeek) sorts at or before
+// every entry of k with sequence <= s and after every entry of k with a larger sequence; entries of other
+// user keys are placed by the user order alone.
+
+//@ lemma probe_placement(p []byte, e []byte, s uint64, s2 uint64, t uint64)
+//@   props C15 C01 C03
+//@   mode bv
+//@   use axioms(ucmp)
+//@   requires len(p) >= 8 && len(e) >= 8
+//@   requires s <= keyMaxSeq && s2 <= keyMaxSeq && t <= 1
+//@   requires bytes(p[:len(p)-8]) == bytes(e[:len(e)-8])
+//@   requires inum(p) == (s<<8 | uint64(keyTypeSeek)) && inum(e) == (s2<<8 | t)
+//@   ensures [visible] s2 <= s ==> icmp(p, e) <= 0
+//@   ensures [hidden] s2 > s ==> icmp(p, e) > 0
+//@   ensures [newest-first] forall s3 uint64 :: s3 <= keyMaxSeq && s3 < s2 ==> (s3<<8 | t) < (s2<<8 | t)
+
+//@ lemma probe_other_key(p []byte, e []byte)
+//@   props C15
+//@   mode bv
+//@   use axioms(ucmp)
+//@   requires len(p) >= 8 && len(e) >= 8
+//@   requires ucmp(p[:len(p)-8], e[:len(e)-8]) != 0
+//@   ensures icmp(p, e) == ucmp(p[:len(p)-8], e[:len(e)-8])
